@@ -8,6 +8,11 @@ import random
 
 from harness.rec import Trace
 
+def _B_reorder(b, order=None):
+    from harness.adapter import _bdd as _B
+    return _B.reorder(b, order)
+
+
 ALL_NAMES = ['a', 'b', 'c', 'd', 'e', 'f', 'g', 'h']
 BIN_OPS = ['and', '/\\', '&', '&&', 'or', '\\/', '|', '||', '#', 'xor', '^',
            '=>', '->', 'implies', '<=>', '<->', 'equiv', 'diff', '-']
